@@ -1,4 +1,5 @@
 import FiberModel.C08.Lemmas
+import FiberModel.C04.PathLemmas
 /-
 C08 — property theorems (model of the repaired code ⊑ spec), for every mount table, every
 iteration order of the map, every path and every chain result. No size bound anywhere.
@@ -136,10 +137,14 @@ example : funnel (appList none [.mk none (b "/api") (some ⟨1, true⟩) []]) no
     = some ⟨[.custom 1], 500, b "Internal Server Error"⟩ := by decide
 
 /-- appList keys of a nested mount do not depend on whether the inner app was mounted before or
-after the outer one (mount.go `mount` computes `getGroupPath(k1, getGroupPath(k2, k3))`,
-`appendSubAppLists` computes `getGroupPath(getGroupPath(k1, k2), k3)`): see
-`C04.getGroupPath_assoc`, used through `nodeKeys`. This instance is the concrete non-trivial table
-of the design's example. -/
+after the outer one: mount.go `mount` computes `getGroupPath(k1, getGroupPath(k2, k3))` (what
+`nodeKeys` transcribes), `appendSubAppLists` computes `getGroupPath(getGroupPath(k1, k2), k3)` for an
+app mounted late — the same key. -/
+theorem appList_key_assoc (k1 k2 k3 : Bytes) :
+    getGroupPath k1 (getGroupPath k2 k3) = getGroupPath (getGroupPath k1 k2) k3 :=
+  (getGroupPath_assoc k1 k2 k3).symm
+
+/-- a concrete non-trivial table (mount from a group, look-alike siblings) -/
 example : (appList (some ⟨0, false⟩)
       [.mk none (b "/api") (some ⟨1, false⟩) [.mk (some (b "/g")) (b "v2/") none []],
        .mk none (b "/api-v2") (some ⟨2, false⟩) []]).map (·.pre)
